@@ -3,7 +3,8 @@
 # baseline suite, then runs every quick check: all must stay silent (exit 0). /repo is restored after each patch.
 export GOFLAGS=-mod=mod GOPROXY=off GOSUMDB=off GOTOOLCHAIN=local
 cd "$(dirname "$0")/.."
-for P in neutral/*.diff; do
+LIST="$*"; [ -z "$LIST" ] && LIST=$(ls neutral/*.diff)
+for P in $LIST; do
   cd /repo
   [ -n "$(git status --porcelain)" ] && { echo "REPO NOT CLEAN"; exit 2; }
   git apply "/verif/$P" || { echo "$P: DOES NOT APPLY"; continue; }
